@@ -45,7 +45,8 @@ def status():
     for f in sorted(glob.glob(os.path.join(here, 'lean', 'obligations', '*.json'))):
         pid = os.path.basename(f)[:-5]
         o = json.load(open(f))
-        g = o.get('gen', {}).get('theorems', [])
+        ge = o.get('gen', [])
+        g = [t for e in (ge if isinstance(ge, list) else [ge]) for t in e.get('theorems', [])]
         rows.append('| %s | %d%s | %s | %d | %d | %s |' % (
             pid, len(o['theorems']), (' + %d' % len(g)) if g else '',
             ', '.join('`%s`' % t.split('.')[-1] for t in o.get('partial', [])) or '–',
